@@ -66,7 +66,7 @@ Record update : Type := mkUpdate {
    Each Go function is a type switch with one struct literal PER FORK CONTAINER TYPE (deneb, capella, altair) and an
    error for every other type; the model has the same case split, one literal per case, so that a change to a single
    case of the Go switch is a change to a single case here. *)
-Inductive wire_fork : Type := WDeneb | WCapella | WAltair | WOther.
+Inductive wire_fork : Type := WDeneb | WCapella | WAltair | WElectra | WOther.
 Definition E_UNKNOWN_TYPE : N := 13.
 
 Definition from_light_client_update (f : wire_fork) att next nbr fin fbr bits sg slot : res update :=
@@ -74,6 +74,7 @@ Definition from_light_client_update (f : wire_fork) att next nbr fin fbr bits sg
   | WDeneb => Ok (mkUpdate att (Some next) (Some nbr) (Some fin) (Some fbr) bits sg slot)
   | WCapella => Ok (mkUpdate att (Some next) (Some nbr) (Some fin) (Some fbr) bits sg slot)
   | WAltair => Ok (mkUpdate att (Some next) (Some nbr) (Some fin) (Some fbr) bits sg slot)
+  | WElectra => Err E_UNKNOWN_TYPE     (* electra.* containers fall through to the error, like any other type *)
   | WOther => Err E_UNKNOWN_TYPE
   end.
 Definition from_light_client_finality_update (f : wire_fork) att fin fbr bits sg slot : res update :=
@@ -81,6 +82,7 @@ Definition from_light_client_finality_update (f : wire_fork) att fin fbr bits sg
   | WDeneb => Ok (mkUpdate att None None (Some fin) (Some fbr) bits sg slot)
   | WCapella => Ok (mkUpdate att None None (Some fin) (Some fbr) bits sg slot)
   | WAltair => Ok (mkUpdate att None None (Some fin) (Some fbr) bits sg slot)
+  | WElectra => Err E_UNKNOWN_TYPE     (* electra.* containers fall through to the error, like any other type *)
   | WOther => Err E_UNKNOWN_TYPE
   end.
 Definition from_light_client_optimistic_update (f : wire_fork) att bits sg slot : res update :=
@@ -88,6 +90,7 @@ Definition from_light_client_optimistic_update (f : wire_fork) att bits sg slot 
   | WDeneb => Ok (mkUpdate att None None None None bits sg slot)
   | WCapella => Ok (mkUpdate att None None None None bits sg slot)
   | WAltair => Ok (mkUpdate att None None None None bits sg slot)
+  | WElectra => Err E_UNKNOWN_TYPE     (* electra.* containers fall through to the error, like any other type *)
   | WOther => Err E_UNKNOWN_TYPE
   end.
 
@@ -325,6 +328,48 @@ Definition apply_wire (s : store) (conv : res update) : res store :=
   | Err _ => Ok s           (* Apply*Update returns the conversion error, the store is untouched *)
   | Panic => Panic
   end.
+
+(* ------------------------------------------------------------------ histories of wire messages
+   What Sync()/Advance() feed the client: LightClientUpdate / LightClientFinalityUpdate / LightClientOptimisticUpdate objects
+   of any fork container, each converted, verified against the store at that moment and applied only when verification
+   succeeded.  The genesis validators root is configuration (fixed for a history); clock and fork version vary per step.
+   There is no force-update in this code base (no timeout path that applies a best pending update): the only way the store
+   changes is process. *)
+Inductive wire_msg : Type :=
+| WUpdate (f : wire_fork) (att : header) (next : committee) (nbr : list bytes) (fin : header) (fbr : list bytes)
+          (bits : bytes) (sg : signature) (slot : N)
+| WFinality (f : wire_fork) (att : header) (fin : header) (fbr : list bytes) (bits : bytes) (sg : signature) (slot : N)
+| WOptimistic (f : wire_fork) (att : header) (bits : bytes) (sg : signature) (slot : N).
+
+Definition conv_of (m : wire_msg) : res update :=
+  match m with
+  | WUpdate f att next nbr fin fbr bits sg slot => from_light_client_update f att next nbr fin fbr bits sg slot
+  | WFinality f att fin fbr bits sg slot => from_light_client_finality_update f att fin fbr bits sg slot
+  | WOptimistic f att bits sg slot => from_light_client_optimistic_update f att bits sg slot
+  end.
+
+Record wire_step : Type := mkWireStep { ws_msg : wire_msg; ws_now : N; ws_fork : bytes }.
+
+Definition process_wire (genesis : bytes) (s : store) (x : wire_step) : store :=
+  match conv_of (ws_msg x) with
+  | Ok u => process s (mkStep u (ws_now x) genesis (ws_fork x))
+  | _ => s
+  end.
+Definition run_wire (genesis : bytes) (s : store) (l : list wire_step) : store := fold_left (process_wire genesis) l s.
+
+(* ------------------------------------------------------------------ clock
+   expectedCurrentSlot = Spec.TimeToSlot(time.Now().Unix(), GenesisTime): 0 before genesis, else (t - genesis) / SECONDS_PER_SLOT;
+   Spec.TimeAtSlot: error when slot >= (2^64 - 1 - genesis) / SECONDS_PER_SLOT, else slot * SECONDS_PER_SLOT + genesis (cannot wrap). *)
+Definition two64m1 : N := 18446744073709551615.
+Definition expected_current_slot (now_time genesis_time : N) : N :=
+  if now_time <? genesis_time then 0 else (now_time - genesis_time) / K_LC_SECONDS_PER_SLOT.
+Definition E_SLOT_TOO_HIGH : N := 14.
+Definition time_at_slot (slot genesis_time : N) : res N :=
+  if (two64m1 - genesis_time) / K_LC_SECONDS_PER_SLOT <=? slot then Err E_SLOT_TOO_HIGH
+  else Ok (slot * K_LC_SECONDS_PER_SLOT + genesis_time).
+(* VerifyUpdate & co. as the node runs them: the clock is read, not passed *)
+Definition verify_at (s : store) (u : update) (now_time genesis_time : N) (genesis_root fork_version : bytes) : res unit :=
+  verify s u (expected_current_slot now_time genesis_time) genesis_root fork_version.
 
 (* ------------------------------------------------------------------ bootstrap *)
 
